@@ -71,8 +71,31 @@ func (s subSpec) String() string {
 	return fmt.Sprintf("%s %s:[%s]%s%s", m, s.target, strings.Join(s.paths, ","), uo, st)
 }
 
+// orig splits "o:a/b" into origin "o" and elements "a/b" (no colon: no origin).
+func orig(p string) (string, string) {
+	if i := strings.Index(p, ":"); i >= 0 {
+		return p[:i], p[i+1:]
+	}
+	return "", p
+}
+
+// okey is the index form of a path that may carry an origin: "o:a/b" -> "o/a/b".
+func okey(p string) string {
+	o, e := orig(p)
+	if o == "" {
+		return e
+	}
+	if e == "" {
+		return o
+	}
+	return o + "/" + e
+}
+
 func mkPath(p string) *pb.Path {
 	out := &pb.Path{}
+	if o, e := orig(p); o != "" {
+		out.Origin, p = o, e
+	}
 	if p == "" {
 		return out
 	}
@@ -208,13 +231,15 @@ func (w *world) apply(target string, o wop) {
 	w.ts += 10
 	switch o.kind {
 	case "upd", "same":
-		v := w.cur[target+"|"+o.path]
+		v := w.cur[target+"|"+okey(o.path)]
 		if o.kind == "upd" || v == 0 {
 			w.val++
 			v = w.val
 		}
-		w.noteHeld(target, o.path, v)
-		w.c.GnmiUpdate(&pb.Notification{Timestamp: w.ts, Prefix: &pb.Path{Target: target}, Update: []*pb.Update{{Path: mkPath(o.path), Val: ival(v)}}})
+		w.noteHeld(target, okey(o.path), v)
+		// an origin goes into the PREFIX (where the collector puts it)
+		og, el := orig(o.path)
+		w.c.GnmiUpdate(&pb.Notification{Timestamp: w.ts, Prefix: &pb.Path{Target: target, Origin: og}, Update: []*pb.Update{{Path: mkPath(el), Val: ival(v)}}})
 	case "atomic":
 		w.val++
 		pre := mkPath(o.path)
@@ -227,7 +252,8 @@ func (w *world) apply(target string, o wop) {
 		w.held[k][atomicVal(n)] = true
 		w.c.GnmiUpdate(n)
 	case "del":
-		w.c.GnmiUpdate(&pb.Notification{Timestamp: w.ts, Prefix: &pb.Path{Target: target}, Delete: []*pb.Path{mkPath(o.path)}})
+		og, el := orig(o.path)
+		w.c.GnmiUpdate(&pb.Notification{Timestamp: w.ts, Prefix: &pb.Path{Target: target, Origin: og}, Delete: []*pb.Path{mkPath(el)}})
 	case "reset":
 		w.c.Reset(target)
 	case "remove":
@@ -444,7 +470,7 @@ func subscribed(sp subSpec, target string, idx []string) bool {
 		return false
 	}
 	for _, p := range sp.paths {
-		q := splitKey(p)
+		q := splitKey(okey(p))
 		if sp.origin != "" {
 			q = append([]string{sp.origin}, q...)
 		}
